@@ -22,6 +22,7 @@ type fieldAccess struct {
 	write  bool
 	held   uint32
 	prepub bool
+	atomic bool // the access is a sync/atomic operation on the member's address
 }
 
 type sharedAnalysis struct {
@@ -124,8 +125,14 @@ func newSharedAnalysis(c *Ctx) *sharedAnalysis {
 			}
 			for _, a := range classifyFieldUses(fa) {
 				held, _ := sa.ls.heldAt(a.ins)
+				isAtomic := false
+				if ci, ok := a.ins.(ssa.CallInstruction); ok {
+					if obj := calleeObj(ci.Common()); obj != nil && obj.Pkg() != nil && obj.Pkg().Path() == "sync/atomic" {
+						isAtomic = true
+					}
+				}
 				sa.accesses = append(sa.accesses, fieldAccess{f: f, ins: a.ins, owner: n.Obj().Name(), field: fld.Name(), write: a.write, held: held,
-					prepub: sa.prePub(f, fa.X, a.ins, 0)})
+					prepub: sa.prePub(f, fa.X, a.ins, 0), atomic: isAtomic})
 			}
 		})
 	}
@@ -427,6 +434,8 @@ func checkC09(c *Ctx, r *Report) {
 	r.rule("C09.R5", "after LoadOrStore on the subscriber pool the request goes on with the context that is in the pool, not with the one it offered", 1)
 	r.rule("C09.R6", "no request removes or replaces a subscriber context in the pool: a request that already fetched the context would go on with an orphan (shared with C01.R5/C10.R5)", 1)
 	r.rule("C09.R7", "the file a request writes under its subscriber's lock is the subscriber's own (named after the subscriber): a path shared by all subscribers is shared state without a common lock", 1)
+	r.rule("C09.R8", "no lock is held while the CHF waits for the consumer's answer to a re-authorisation notification (the consumer may send an update of the same subscriber first)", 1)
+	r.rule("C09.R9", "numbers handed out to concurrent requests (local record sequence number, session counter) are allocated in one step: the value used is the one the increment produced (shared with C10.R1) - an atomic Add followed by a separate Load gives two requests the same number and skips another, which no serial order of the requests produces", 1)
 	r.rule("C09.R4", "no check-then-act on the subscriber pool without a lock (LoadOrStore or one held lock)", 1)
 
 	sa := newSharedAnalysis(c)
@@ -542,6 +551,8 @@ func checkC09(c *Ctx, r *Report) {
 			r.viol("C09.R7", fnKey(df)+"|file", c.rel(df.Pos()), "dumpCdrFile does not write a file (anchor moved)")
 		}
 	}
+	noLockAcrossNotification(c, r, "C09.R8")
+	r.shareFrom(c, checkC10, map[string]string{"C10.R1": "C09.R9"})
 	checkPoolLifetime(c, r, "C09.R6", "a create of the same subscriber that is in flight has fetched the context already; it registers its session in the orphaned object and is answered 201, and no serial order of the two requests explains that the acknowledged session can be neither updated nor released")
 	checkPoolWinner(c, r, "C09.R5")
 }
@@ -661,6 +672,17 @@ func reportLocksetRule(c *Ctx, r *Report, sa *sharedAnalysis, rule string, only 
 			continue
 		}
 		shared++
+		// a member touched only through sync/atomic operations needs no lock
+		allAtomic := true
+		for _, a := range acc {
+			if !a.prepub && !a.atomic {
+				allAtomic = false
+			}
+		}
+		if allAtomic {
+			r.proven(rule, "field "+name, "", "every request-reachable access is a sync/atomic operation")
+			continue
+		}
 		common := sa.eligible(strings.SplitN(name, ".", 2)[0])
 		n, nLocked := 0, 0
 		var worst *fieldAccess
